@@ -46,6 +46,7 @@ CONSTANTS Nodes,       \* 1..N
           RootSlots,   \* [RootObjs -> SUBSET {1,2}] usable slots of a root object
           Realms,      \* {1} or {1,2}; realm 1 receives the transaction (MsgCall Apply)
           MaxOps, MaxTx,
+          MaxOps1,     \* bound on the operations of the FIRST transaction (= MaxOps except in directed configurations)
           OwnerFix,    \* TRUE: property behaviour; FALSE: realm.go as pinned
           AttachGuard, \* TRUE: attaching (to) an object deleted earlier in the transaction panics; FALSE: as pinned
           SaveGuard,   \* TRUE: the recursive save stops at an object already being saved; FALSE: as pinned
@@ -335,7 +336,7 @@ Init ==
 Op(name, p, k, c) == [op |-> name, p |-> p, k |-> k, c |-> c]
 Log(o) == cur' = IF Quiet THEN cur ELSE Append(cur, o)
 
-Budget == nops < MaxOps /\ ntx < MaxTx /\ ~S.bad
+Budget == nops < (IF ntx = 0 THEN MaxOps1 ELSE MaxOps) /\ ntx < MaxTx /\ ~S.bad
 
 \* x := &node.Node{V: label}   (the smallest free id: node ids are interchangeable)
 Unreal == {q \in held : ~S.real[q]}
